@@ -857,6 +857,9 @@ def selftest():
     b = lambda name, file, old, new, rule, expect="", **kw: V.append(dict(name=name, kind="break", file=file, old=old, new=new, rule=rule, expect=expect, **kw))
     n = lambda name, file, old, new, **kw: V.append(dict(name=name, kind="neutral", file=file, old=old, new=new, **kw))
     BSF = "phonopy/phonon/band_structure.py"
+    TPF_ = "phonopy/phonon/thermal_properties.py"
+    b("thermal properties convert the mesh's own frequency array in place", TPF_, "        self._frequencies = (\n            np.array(self._frequencies, dtype=\"double\", order=\"C\") * THzToEv\n        )", "        self._frequencies = np.ascontiguousarray(self._frequencies, dtype=\"double\")\n        self._frequencies *= THzToEv", "R14y.condcopy", "ThermalPropertiesBase.__init__")
+    n("thermal properties convert a fresh copy in place", TPF_, "        self._frequencies = (\n            np.array(self._frequencies, dtype=\"double\", order=\"C\") * THzToEv\n        )", "        self._frequencies = np.array(self._frequencies, dtype=\"double\", order=\"C\")\n        self._frequencies *= THzToEv")
     b("group velocities scattered by the band order", "phonopy/phonon/band_structure.py", "                    gv_on_path.append(gv[i][band_order])", "                    gv_sorted = np.zeros_like(gv[i])\n                    gv_sorted[band_order] = gv[i]\n                    gv_on_path.append(gv_sorted)", "R14n", "_solve_dm_on_path")
     b("band connection by independent argmax", BSF, "    band_order = [connection_order[x] for x in prev_band_order]", "    connection_order = np.argmax(metric, axis=1)\n    band_order = [int(connection_order[x]) for x in prev_band_order]", "R14h", "estimate_band_connection")
     b("band connection forgets to exclude used bands", BSF, "            if i in connection_order:\n                continue\n", "", "R14h", "estimate_band_connection")
